@@ -522,144 +522,6 @@ macro_rules! impl_nio_read_buf {
     }
 }
 
-macro_rules! impl_nio_read_iovec {
-    (
-        $struct_name:ident, $trait_name: ident,
-        $syscall: ident(
-            $fd: ident : $fd_type: ty,
-            $iov: ident : $iov_type: ty,
-            $iovcnt: ident : $iovcnt_type: ty,
-            $($arg: ident : $arg_type: ty),*
-        ) -> $result: ty
-    ) => {
-        #[repr(C)]
-        #[derive(Debug, Default)]
-        struct $struct_name<I: $trait_name> {
-            inner: I,
-        }
-
-        impl<I: $trait_name> $trait_name for $struct_name<I> {
-            extern "C" fn $syscall(
-                &self,
-                fn_ptr: Option<
-                    &extern "C" fn(
-                        $fd_type,
-                        $iov_type,
-                        $iovcnt_type,
-                        $($arg_type),*
-                    ) -> $result
-                >,
-                $fd: $fd_type,
-                $iov: $iov_type,
-                $iovcnt: $iovcnt_type,
-                $($arg: $arg_type),*
-            ) -> $result {
-                if !$crate::syscall::is_socket($fd) {
-                    return self.inner.$syscall(fn_ptr, $fd, $iov, $iovcnt, $($arg, )*);
-                }
-                let blocking = $crate::syscall::is_blocking($fd);
-                if blocking {
-                    $crate::syscall::set_non_blocking($fd);
-                }
-                let start_time = $crate::common::now();
-                let mut left_time = $crate::syscall::recv_time_limit($fd);
-                let vec = unsafe {
-                    Vec::from_raw_parts(
-                        $iov.cast_mut(),
-                        $iovcnt.try_into().expect("overflow"),
-                        $iovcnt.try_into().expect("overflow"),
-                    )
-                };
-                let mut length = 0;
-                let mut received = 0usize;
-                let mut r = -1;
-                let mut index = 0;
-                for iovec in &vec {
-                    let stage = length;
-                    let mut offset = received.saturating_sub(stage);
-                    length += iovec.iov_len;
-                    if received > length {
-                        index += 1;
-                        continue;
-                    }
-                    let mut arg = Vec::new();
-                    for i in vec.iter().skip(index) {
-                        arg.push(*i);
-                    }
-                    while received < length && left_time > 0 {
-                        // Assuming iov_len is 4, but only 1 is read, at this point we should continue trying to fill the current iovec
-                        if 0 != offset {
-                            arg[0] = libc::iovec {
-                                iov_base: (arg[0].iov_base as usize + offset) as *mut std::ffi::c_void,
-                                iov_len: arg[0].iov_len - offset,
-                            };
-                        }
-                        r = self.inner.$syscall(
-                            fn_ptr,
-                            $fd,
-                            arg.as_ptr(),
-                            std::ffi::c_int::try_from(arg.len()).unwrap_or_else(|_| {
-                                panic!("{} iovcnt overflow", $crate::common::constants::SyscallName::$syscall)
-                            }),
-                            $($arg, )*
-                        );
-                        if r == 0 {
-                            r = received.try_into().expect("received overflow");
-                            std::mem::forget(vec);
-                            if blocking {
-                                $crate::syscall::set_blocking($fd);
-                            }
-                            return r;
-                        } else if r != -1 {
-                            $crate::syscall::reset_errno();
-                            received += libc::size_t::try_from(r).expect("r overflow");
-                            if received >= length {
-                                r = received.try_into().expect("received overflow");
-                                break;
-                            }
-                            offset = received.saturating_sub(stage);
-                        }
-                        let error_kind = std::io::Error::last_os_error().kind();
-                        if error_kind == std::io::ErrorKind::WouldBlock {
-                            //wait read event
-                            left_time = start_time
-                                .saturating_add($crate::syscall::recv_time_limit($fd))
-                                .saturating_sub($crate::common::now());
-                            let wait_time = std::time::Duration::from_nanos(left_time)
-                                .min($crate::common::constants::SLICE);
-                            if $crate::net::EventLoops::wait_read_event(
-                                $fd,
-                                Some(wait_time)
-                            ).is_err() {
-                                r = received.try_into().expect("received overflow");
-                                std::mem::forget(vec);
-                                if blocking {
-                                    $crate::syscall::set_blocking($fd);
-                                }
-                                return r;
-                            }
-                        } else if error_kind != std::io::ErrorKind::Interrupted {
-                            std::mem::forget(vec);
-                            if blocking {
-                                $crate::syscall::set_blocking($fd);
-                            }
-                            return r;
-                        }
-                    }
-                    if received >= length {
-                        index += 1;
-                    }
-                }
-                std::mem::forget(vec);
-                if blocking {
-                    $crate::syscall::set_blocking($fd);
-                }
-                r
-            }
-        }
-    }
-}
-
 macro_rules! impl_nio_write_buf {
     (
         $struct_name:ident, $trait_name: ident,
@@ -751,15 +613,10 @@ macro_rules! impl_nio_write_buf {
     }
 }
 
-macro_rules! impl_nio_write_iovec {
+macro_rules! impl_nio_write {
     (
         $struct_name:ident, $trait_name: ident,
-        $syscall: ident(
-            $fd: ident : $fd_type: ty,
-            $iov: ident : $iov_type: ty,
-            $iovcnt: ident : $iovcnt_type: ty,
-            $($arg: ident : $arg_type: ty),*
-        ) -> $result: ty
+        $syscall: ident($fd: ident : $fd_type: ty, $($arg: ident : $arg_type: ty),*) -> $result: ty
     ) => {
         #[repr(C)]
         #[derive(Debug, Default)]
@@ -770,21 +627,12 @@ macro_rules! impl_nio_write_iovec {
         impl<I: $trait_name> $trait_name for $struct_name<I> {
             extern "C" fn $syscall(
                 &self,
-                fn_ptr: Option<
-                    &extern "C" fn(
-                        $fd_type,
-                        $iov_type,
-                        $iovcnt_type,
-                        $($arg_type),*
-                    ) -> $result
-                >,
+                fn_ptr: Option<&extern "C" fn($fd_type, $($arg_type),*) -> $result>,
                 $fd: $fd_type,
-                $iov: $iov_type,
-                $iovcnt: $iovcnt_type,
                 $($arg: $arg_type),*
             ) -> $result {
                 if !$crate::syscall::is_socket($fd) {
-                    return self.inner.$syscall(fn_ptr, $fd, $iov, $iovcnt, $($arg, )*);
+                    return self.inner.$syscall(fn_ptr, $fd, $($arg, )*);
                 }
                 let blocking = $crate::syscall::is_blocking($fd);
                 if blocking {
@@ -792,86 +640,35 @@ macro_rules! impl_nio_write_iovec {
                 }
                 let start_time = $crate::common::now();
                 let mut left_time = $crate::syscall::send_time_limit($fd);
-                let vec = unsafe {
-                    Vec::from_raw_parts(
-                        $iov.cast_mut(),
-                        $iovcnt.try_into().expect("overflow"),
-                        $iovcnt.try_into().expect("overflow"),
-                    )
-                };
-                let mut length = 0;
-                let mut sent = 0usize;
                 let mut r = -1;
-                let mut index = 0;
-                for iovec in &vec {
-                    let stage = length;
-                    let mut offset = sent.saturating_sub(stage);
-                    length += iovec.iov_len;
-                    if sent > length {
-                        index += 1;
-                        continue;
+                while left_time > 0 {
+                    r = self.inner.$syscall(fn_ptr, $fd, $($arg, )*);
+                    if r != -1 {
+                        $crate::syscall::reset_errno();
+                        break;
                     }
-                    let mut arg = Vec::new();
-                    for i in vec.iter().skip(index) {
-                        arg.push(*i);
-                    }
-                    while sent < length && left_time > 0 {
-                        if 0 != offset {
-                            arg[0] = libc::iovec {
-                                iov_base: (arg[0].iov_base as usize + offset) as *mut std::ffi::c_void,
-                                iov_len: arg[0].iov_len - offset,
-                            };
+                    let error_kind = std::io::Error::last_os_error().kind();
+                    if error_kind == std::io::ErrorKind::WouldBlock {
+                        if !blocking {
+                            // the caller asked for non-blocking semantics
+                            break;
                         }
-                        r = self.inner.$syscall(
-                            fn_ptr,
+                        //wait write event
+                        left_time = start_time
+                            .saturating_add($crate::syscall::send_time_limit($fd))
+                            .saturating_sub($crate::common::now());
+                        let wait_time = std::time::Duration::from_nanos(left_time)
+                            .min($crate::common::constants::SLICE);
+                        if $crate::net::EventLoops::wait_write_event(
                             $fd,
-                            arg.as_ptr(),
-                            std::ffi::c_int::try_from(arg.len()).unwrap_or_else(|_| {
-                                panic!("{} iovcnt overflow", $crate::common::constants::SyscallName::$syscall)
-                            }),
-                            $($arg, )*
-                        );
-                        if r != -1 {
-                            $crate::syscall::reset_errno();
-                            sent += libc::size_t::try_from(r).expect("r overflow");
-                            if sent >= length {
-                                r = sent.try_into().expect("sent overflow");
-                                break;
-                            }
-                            offset = sent.saturating_sub(stage);
+                            Some(wait_time)
+                        ).is_err() {
+                            break;
                         }
-                        let error_kind = std::io::Error::last_os_error().kind();
-                        if error_kind == std::io::ErrorKind::WouldBlock {
-                            //wait write event
-                            left_time = start_time
-                                .saturating_add($crate::syscall::send_time_limit($fd))
-                                .saturating_sub($crate::common::now());
-                            let wait_time = std::time::Duration::from_nanos(left_time)
-                                .min($crate::common::constants::SLICE);
-                            if $crate::net::EventLoops::wait_write_event(
-                                $fd,
-                                Some(wait_time)
-                            ).is_err() {
-                                r = sent.try_into().expect("sent overflow");
-                                std::mem::forget(vec);
-                                if blocking {
-                                    $crate::syscall::set_blocking($fd);
-                                }
-                                return r;
-                            }
-                        } else if error_kind != std::io::ErrorKind::Interrupted {
-                            std::mem::forget(vec);
-                            if blocking {
-                                $crate::syscall::set_blocking($fd);
-                            }
-                            return r;
-                        }
-                    }
-                    if sent >= length {
-                        index += 1;
+                    } else if error_kind != std::io::ErrorKind::Interrupted {
+                        break;
                     }
                 }
-                std::mem::forget(vec);
                 if blocking {
                     $crate::syscall::set_blocking($fd);
                 }
